@@ -59,7 +59,7 @@ def arg_str(body, op):
     return None
 
 
-def str_compares(body):
+def str_compares(body, branchless=False):
     """String comparisons against a literal: list of dicts
     {lit, ci, bb, true, false, other (operand that is compared with the literal), negated}"""
     out = []
@@ -81,13 +81,18 @@ def str_compares(body):
             continue
         res = t["dest"]["l"]
         tb, fb = branch_on_bool(body, nxt, res)
-        if tb is None:
-            continue
         neg = n.endswith("::ne")
+        if tb is None:
+            # the comparison's result is used as a value (e.g. the last operand of an `||` chain)
+            if not branchless:
+                continue
+            out.append({"lit": lit, "ci": STR_EQ[n], "bb": bb, "true": None, "false": None, "other": other,
+                        "span": body.blocks[bb]["ts"], "dest": res, "neg": neg})
+            continue
         if neg:
             tb, fb = fb, tb
         out.append({"lit": lit, "ci": STR_EQ[n], "bb": bb, "true": tb, "false": fb, "other": other,
-                    "span": body.blocks[bb]["ts"]})
+                    "span": body.blocks[bb]["ts"], "dest": res, "neg": neg})
     return out
 
 
@@ -215,7 +220,7 @@ def string_cases(body, compares=None, extra_cells=()):
                 continue
             seen.add(bb)
             c = by_bb.get(bb)
-            if c is not None:
+            if c is not None and c["true"] is not None:
                 if cell == OTHER:
                     hit = False
                 elif c["ci"]:
